@@ -25,6 +25,28 @@ pub fn derive(seed: u64, tag: &str, idx: u64) -> u64 {
     splitmix(&mut x)
 }
 
+/// A 32-byte generator seed whose first ChaCha12 output word is within 2^-20
+/// of the top of the u32 range: a `gen_range` drawn first from a generator
+/// seeded with it lands at the very top of its range. (What rand's ThreadRng
+/// does with the 32 bytes it gets from getrandom.)
+pub fn top_of_range_seed() -> String {
+    use rand_chacha::ChaCha12Rng;
+    use rand_core::{RngCore, SeedableRng};
+    let mut ctr = 0u64;
+    loop {
+        let mut seed = [0u8; 32];
+        let mut x = ctr;
+        for ch in seed.chunks_mut(8) {
+            ch.copy_from_slice(&splitmix(&mut x).to_le_bytes());
+        }
+        let mut r = ChaCha12Rng::from_seed(seed);
+        if r.next_u32() >= 0xFFFF_F800 {
+            return seed.iter().map(|b| format!("{b:02x}")).collect();
+        }
+        ctr += 1;
+    }
+}
+
 impl Rng {
     pub fn new(seed: u64) -> Self {
         let mut x = seed;
